@@ -355,12 +355,13 @@ func (c *Conn) nextFrame() (int, MessageType, []byte, bool, bool, bool, error) {
 		if c.message != nil {
 			ml = len(*c.message)
 		}
-		if c.isMessageTooLarge(ml + int(bodyLen)) {
+		// a control frame is not part of the message under assembly.
+		isControl := (opcode == PingMessage) || (opcode == PongMessage) || (opcode == CloseMessage)
+		if !isControl && c.isMessageTooLarge(ml+int(bodyLen)) {
 			return 0, 0, nil, false, false, false, ErrMessageTooLarge
 		}
 
-		if (bodyLen > maxControlFramePayloadSize) &&
-			((opcode == PingMessage) || (opcode == PongMessage) || (opcode == CloseMessage)) {
+		if (bodyLen > maxControlFramePayloadSize) && isControl {
 			return 0, 0, nil, false, false, false, ErrControlMessageTooBig
 		}
 
